@@ -20,6 +20,12 @@ Proof.
   repeat split; try lia. nia.
 Qed.
 
+Lemma min_k_ge1 (B l b : Z) : 1 <= B -> 1 <= l + b -> 1 <= min_k B (Meta l b).
+Proof.
+  intros HB H. unfold min_k, eff; cbn [ld lb].
+  pose proof (cdiv_ge1 B (l + b) HB H). nia.
+Qed.
+
 (* ------------------------------------------------------------------ one call: code vs documented algebra *)
 (* what the transcribed code does, classified against the closed-form algebra:
    Ok  -> the algebra says Ok with the same metadata and limb count,
@@ -43,7 +49,7 @@ Ltac rdx :=
     mulcst_into mulcst_assign mulcstrnx_prec mulacc on_tmp mulpow2_into divpow2_into divpow2_assign
     rotate_into rotate_assign rescale_into rescale_assign extract_pt unary_into to_znx_check
     apply_params apply_params_asserting mul_ct_params mul_pt_params ensure_plaintext_alignment
-    cst_at_k cst_meta_of_prec ptz_alloc compact
+    cst_at_k cst_meta_of_prec cst_to_znx ptz_alloc compact
     s_unary s_align s_f64 s_mul_ct s_mul_pt s_acc
     offset_unary offset_binary offu offb ssub eff maxk
     bind ret fail panic get set_meta set_lb set_ld shift csub usub uadd passert when
@@ -85,7 +91,7 @@ Ltac fin :=
 
 Ltac split_op o :=
   destruct o as [ s | pt k | | | p | p | prec | prec | l k none | l k none | prec none | prec none | |
-                  | | | | | p | p | prec | prec | prec | prec | prec none | prec none
+                  | | | | | p | p | prec | prec | prec none | prec none | prec none | prec none
                   | | p | prec | prec none | prec none | bits | bits | bits | bits | key | key | | | k | k
                   | | s | | m' | pt ];
   try (destruct p as [[pl pb] pk pbk]); try (destruct prec as [pl pb]); try (destruct pt as [pl pb]);
@@ -101,6 +107,8 @@ Proof.
   all: cdivs; fin.
   (* compact_limbs_copy: the slice exists because the source satisfies the invariant *)
   all: try (pose proof (cdiv_le_iff B (al + ab) asz HB); intros; exfalso; lia).
+  (* constants: to_znx has one limb to write into as soon as the precision is not (0, 0) *)
+  all: pose proof (min_k_ge1 B pl pb HB); intros; exfalso; lia.
 Qed.
 
 (* ------------------------------------------------------------------ consequences for one call *)
